@@ -309,6 +309,8 @@ def components(draw, prof, min_schemas=1):
         # names of which one is a suffix of another (Pet / NewPet / OldNewPet): string tests on names and references are easy to
         # get wrong exactly there
         names = draw(st.lists(st.sampled_from(AFFIX_WORDS), min_size=n, max_size=n, unique=True))
+        # allOf parents are chosen among earlier positions: longest first makes every child's name a suffix of its parent's
+        names.sort(key=len, reverse=True)
     out = []
     for i, nm in enumerate(names):
         r = draw(st.integers(0, 9))
